@@ -310,8 +310,8 @@ def check(v, tier, opts):
                  "numbers of 1-2 symbolic digits, sign in {none,-,+}, all ten units"]
     v.assumptions += ["std string function specifications (15 one-liners in lib/mir_engine/natives_str.py)",
                       "chrono::Duration == exact nanosecond count within +-i64::MAX milliseconds; seconds()/nanoseconds()/+ per chrono docs"]
-    v.outside += ["DateTime::parse on text that is not of the shape of a listed format (arbitrary bytes, other field widths, signs, extra "
-                  "whitespace), Time::parse, and chrono's format interpreter itself (replaced by the contract model of chrono_fmt.py)",
+    v.outside += ["chrono's own parsers and format interpreter (panic-freedom of chrono itself on arbitrary bytes is assumed; its behaviour is "
+                  "the contract model of chrono_fmt.py for format-shaped text and an arbitrary result otherwise)",
                   "multi-byte characters other than the three representatives (the parser only tests ASCII classes)", "strings longer than the bound; numbers with more than 18 digits"]
     v.samples.append({"check": "totality", "length": 2, "query": "exists b0,b1 in 0..127: path condition of `unwrap` on Err of str::parse::<i64>(s[0..1])"})
     return v.finish(RULE + DT_RULE)
@@ -322,7 +322,8 @@ DT_RULE = ("; DateTime<U>::strftime and DateTime<U>::parse are executed from the
            "round trip — z3 is asked for a date-time of 1678..2262 (symbolic year, month, day, hour, minute, second and fraction digits) "
            "whose default-format text, or whose text in a listed format that prints all its non-zero fields, is rejected or parses to "
            "another instant; (4) totality on templates — every digit string of the shape of each listed format, parsed under the rule "
-           "list and under that format: no satisfiable path to a panic; the model is first compared with the real chrono on concrete texts")
+           "list and under that format: no satisfiable path to a panic; (5) any string: chrono's parsers abstracted to an arbitrary result, "
+           "no panic in tevec's code after them (DateTime::parse, Time::parse); the model is first compared with the real chrono on concrete texts")
 
 
 def datetime_text(v, E, tier):
@@ -419,6 +420,72 @@ def datetime_text(v, E, tier):
                 if not fails and not unk:
                     v.nontrivial += 1
     log(f"  [M] DateTime::parse totality on format-shaped digit strings: {ntot} (unit, format, mode) encodings, {nbad} with a new counterexample, {time.time() - t0:.1f}s")
+    # (5) whatever chrono's parsers return: no panic in tevec's own code after them (any string, any format)
+    t0 = time.time()
+    nabs = nbad = 0
+    for unit in T.UNITS:
+        for wf in (False, True):
+            hname = f"dt_parse_any_{T.SHORT[unit]}_{'fmt' if wf else 'rules'}"
+            try:
+                dom, run, qs, res, wit = T.check_parse_abstract(E, tf, unit, wf)
+            except ExecError as e:
+                v.inconcl(f"{hname}: cannot encode ({e})")
+                continue
+            nq, fails, unk = T.ask_all(E, dom, run, qs, wit)
+            v.evaluations += nq
+            nabs += 1
+            for u in unk[:2]:
+                v.inconcl(f"{hname}: {u}")
+            for msg, model in fails[:1]:
+                key = f"{hname}::{msg}"
+                if v.is_known(key):
+                    v.note_known(key)
+                    continue
+                nbad += 1
+                from fractions import Fraction
+                txt = None
+                for k in range(1, 40):
+                    if model and model.get(f"p{k}_ok") in (True, "true") and f"p{k}_y" in model:
+                        y_, m_, d_ = (int(Fraction(model[f"p{k}_{n}"])) for n in ("y", "m", "d"))
+                        tod = int(Fraction(model.get(f"p{k}_tod", 0)))
+                        if 0 <= y_ <= 9999:
+                            txt = f"{y_:04d}-{m_:02d}-{d_:02d}" + (f" {tod // 3600_000_000_000 % 24:02d}:{tod // 60_000_000_000 % 60:02d}:{tod // 10**9 % 60:02d}" if f"p{k}_tod" in model else "")
+                        break
+                got = T.native_parse(unit, "%Y-%m-%d %H:%M:%S" if (wf and txt and " " in txt) else ("%Y-%m-%d" if wf else None), txt) if txt else "no text for the model"
+                path = save(hname, {"property": "C18", "kind": "dt_parse", "unit": unit, "format": ("%Y-%m-%d %H:%M:%S" if (wf and txt and " " in txt) else ("%Y-%m-%d" if wf else None)),
+                                    "input": txt or "", "native": got, "solver_message": msg})
+                if got.startswith("PANIC"):
+                    v.failure(key, path, f"DateTime::<{unit}>::parse({txt!r}) panics: {got[6:120]}")
+                else:
+                    v.inconcl(f"{hname}: abstract counterexample ({msg}) not reproduced natively with text {txt!r} ({got}); case {path}")
+            if not fails and not unk:
+                v.nontrivial += 1
+    try:
+        tfn = T.find_time_parse(E)
+        v.functions.add("tea_time::Time::parse (MIR " + tfn.name + ")")
+        for wf in (False, True):
+            hname = f"time_parse_any_{'fmt' if wf else 'default'}"
+            dom, run, qs, res, wit = T.check_time_parse_abstract(E, tfn, wf)
+            nq, fails, unk = T.ask_all(E, dom, run, qs, wit)
+            v.evaluations += nq
+            nabs += 1
+            for u in unk[:2]:
+                v.inconcl(f"{hname}: {u}")
+            for msg, model in fails[:1]:
+                key = f"{hname}::{msg}"
+                if v.is_known(key):
+                    v.note_known(key)
+                else:
+                    nbad += 1
+                    v.inconcl(f"{hname}: {msg} (abstract counterexample {model}; no native replay for abstract NaiveTime values)")
+            if not fails and not unk:
+                v.nontrivial += 1
+    except ExecError as e:
+        v.inconcl(f"Time::parse: cannot encode ({e})")
+    log(f"  [M] parse totality with chrono's parsers abstracted (any string, any format): {nabs} encodings, {nbad} with a counterexample, {time.time() - t0:.1f}s")
+    v.bounds.append("DateTime::<U>::parse (4 units, rule list and explicit format) and Time::parse on ANY string: chrono's parse_from_str / "
+                    "FromStr abstracted to `Err or Ok(any value of the type's range)` with fresh symbols per call — no panic in tevec's code "
+                    "after the call, and Time::parse's result stays within a day (plus a leap second)")
     v.bounds += ["date-time round trip: every date-time of 1678-01-01 .. 2262-01-01 at each unit; default format: every fraction class of the unit; "
                  "listed formats: date-times whose fields the format does not print are zero; quick: all listed formats for the ms unit "
                  "(largest fraction class), thorough: all units and classes",
